@@ -145,6 +145,9 @@ MonStep(m, e) ==
                            IF DoneNow(m) THEN "C17:ret:is-done" ELSE "C17:ret:not-done")
     [] e.e = "DestroyE" -> [Chk(m, TRUE, m.bi = 0 /\ m.bo = 0, "C17:bands", "C17:bands:destroy")
                              EXCEPT !.act = FALSE]
+    (* descriptor balance of the whole execution (init, sessions, possibly many pumps stalled at the same
+       time, deinit): everything the library opened is closed again (shared with C18) *)
+    [] e.e = "Fds" -> Chk(m, e.base >= 0, e.after = e.base, "C17:fd-leak", IF e.many > 0 THEN "C17:fd-leak:many" ELSE "C17:fd-leak")
     [] e.e = "End" ->
          (CASE e.why = "crash" -> V(m, "C17:crash")
             [] e.why \in {"hang", "runaway"} -> V(m, "C17:hang")
